@@ -38,6 +38,8 @@ def _has_colliding_names(S):
 
 def D10(key, payload):
     """pipeline-style keys whose schema has sibling property names collapsing onto one attribute name."""
+    if "D10-shape" in (payload.get("tags") or []):
+        return True
     try:
         return _has_colliding_names(_schema_of_key(key))
     except Exception:
@@ -47,3 +49,22 @@ def D10(key, payload):
 def D9(key, payload):
     """the check tagged the case: some key of the value equals the Python name of a renamed property."""
     return "D9-shape" in (payload.get("tags") or [])
+
+
+D12_TITLES = ['1abc', 'Array', 'List', 'Maybe', 'None', 'Object', 'Property', 'String', 'Union', '_', 'array', 'list', 'maybe', 'none', 'object', 'property', 'string', 'true', 'union', 'é', '日本']
+
+
+def D12(key, payload):
+    """title checks (C12-titles, C02) on exactly the titles recorded when the finding was made."""
+    import json
+    m = re.match(r"(C12-titles|C02-titles):(.*?)( \[python\])?$", key)
+    if not m:
+        return False
+    try:
+        return json.loads(m.group(2)) in D12_TITLES
+    except Exception:
+        return False
+
+
+def D32(key, payload):
+    return "D32-shape" in (payload.get("tags") or [])
